@@ -45,7 +45,9 @@ class SchemaValidator:
 
     def validate(self, schema_dict=None, json_file_path=None, json_string=None):
         if schema_dict is not None:
-            self.schema = schema_dict
+            # work on a copy: validation adds bookkeeping entries to the schema,
+            # which must not leak into the caller's object
+            self.schema = copy.deepcopy(schema_dict)
         elif json_file_path is not None:
             self.schema = json.load(open(json_file_path))
         elif json_string is not None:
